@@ -120,3 +120,59 @@ PROPS["C06"] = dict(
         dict(name="TestVF_C06", quick=dict(checks=80000, shards=8, timeout=300), thorough=dict(checks=3000000, shards=16, timeout=3000)),
     ],
 )
+
+PROPS["C01"] = dict(
+    level="exploration", engine="E2 pair + E3 session",
+    technique="property-based testing (rapid): generated source trees x configurations x segmentations through the real sender and receiver; tree-equality, must-succeed and reported-names oracles",
+    level_text="Random search over the product (tree shape and names, boundary-biased sizes, content kinds, direction, base64/binary, escape-all, compress, "
+               "buffer size, overwrite, directory mode, negotiated protocol 1-4, Windows framing, tmux junk mode, segmentation per direction) with the "
+               "real handshake, sender, receiver and exit exchange on both ends; oracle: both sides succeed, destination tree == source tree under the "
+               "names predicted by the fresh-name rule, reported names == written names.",
+    level_note="Pair engine: client-side and server-side transfer code joined in-process (the filter and the binaries are exercised by the session-engine "
+               "tests). Names are valid UTF-8 without '/' and NUL; duplicate base names with -y are refused by design and not generated; no symlinks.",
+    rule="non-trivial = at least one file with size>0 arrived intact and the configuration differs from all-defaults in >=1 dimension; distinct by SHA-1 of the case JSON",
+    tests=[
+        dict(name="TestVF_C01", env=dict(VERIF_CASE_LIMIT=300),
+             quick=dict(checks=1600, shards=16, timeout=600), thorough=dict(checks=40000, shards=16, timeout=6000)),
+    ],
+)
+
+PROPS["C07"] = dict(
+    level="exploration", engine="E2 pair",
+    technique="property-based testing (rapid): generated prior destination states x incoming name sets x repeated transfers; snapshot-invariance and fresh-name reference-model oracles",
+    level_text="Random search over (prior destination state built around the incoming names: colliding files and directories, name.N series with gaps, wrong-type "
+               "collisions, read-only entries, nested content; incoming single files, directories, same base name several times, 250-255 byte names; protocols 1-4 "
+               "incl. archive mode; both receiving roles; 1-4 repeated transfers; the saturated name..name.999 series). Oracle: the (type, mode, size, SHA-1, mtime) "
+               "snapshot of every pre-existing entry is unchanged; each incoming path lands whole under the name predicted by the reference rule; reported names == names used; "
+               "saturation fails the transfer.",
+    level_note="Pair engine (real sender/receiver code in-process). When a fresh name would exceed the file-name limit a failing transfer is accepted.",
+    rule="non-trivial = at least one incoming top-level name collided with an existing entry; distinct by SHA-1 of the case JSON",
+    tests=[dict(name="TestVF_C07", env=dict(VERIF_CASE_LIMIT=600),
+                quick=dict(checks=1600, shards=16, timeout=600), thorough=dict(checks=40000, shards=16, timeout=6000))],
+)
+
+PROPS["C08"] = dict(
+    level="exploration", engine="E2 pair",
+    technique="property-based testing (rapid): (source, previous destination) pairs generated by relation and boundary offsets; byte-equality, bystander-snapshot and skip-bound oracles",
+    level_text="Random search over (source content, previous destination content) pairs described by relation (absent, empty, strict prefix, identical, longer, diverging at "
+               "offset d) with lengths and offsets on, just before and just after the 10 MiB comparison-block boundaries (files to 25 MiB), both directions, protocols 2, 3, 4, "
+               "base64/binary, bystander files. Oracle: the transfer succeeds, destination == source byte for byte, bystanders' snapshots unchanged, and (from the tap) the size "
+               "announced for the data phase is >= source size - longest common prefix.",
+    level_note="Pair engine. Large cases use whole-write segmentation to keep the cost at about half a second.",
+    rule="non-trivial = previous content exists and differs from the source in length or at some offset; distinct by SHA-1 of the case JSON",
+    tests=[dict(name="TestVF_C08", env=dict(VERIF_CASE_LIMIT=600),
+                quick=dict(checks=640, shards=16, timeout=900), thorough=dict(checks=16000, shards=16, timeout=8000))],
+)
+
+PROPS["C09"] = dict(
+    level="exploration", engine="E2 pair (hostile sender)",
+    technique="property-based testing (rapid): hostile peer-supplied names through the real sender into the real receiver inside a watched sandbox; outside-snapshot invariance oracle",
+    level_text="Random search over hostile names ('..' in any position and multiplicity, embedded '/', absolute paths, empty and '.' elements, 4 KiB names; plain names, JSON path "
+               "lists and archive entry headers) x overwrite x directory mode x protocols 1-4 x both receiving roles x delete-afterwards. The destination sits four levels deep in a "
+               "sandbox with canary files on every level and in sibling directories; oracle: the snapshot (type, mode, size, SHA-1, mtime) of everything outside the destination is unchanged.",
+    level_note="The real sender code is given a poisoned source list (real files, hostile names), so both ends run real code. '..' multiplicity is bounded by the sandbox depth so that the check "
+               "itself never writes outside its scratch directory.",
+    rule="non-trivial = some name would resolve outside the destination under a plain filepath.Join; distinct by SHA-1 of the case JSON",
+    tests=[dict(name="TestVF_C09", env=dict(VERIF_CASE_LIMIT=300),
+                quick=dict(checks=2400, shards=16, timeout=600), thorough=dict(checks=80000, shards=16, timeout=6000))],
+)
